@@ -6,6 +6,7 @@ import signal
 
 import core
 import s3_util as S3
+import t2_util as T
 import uwgutil as U
 from props.c03 import toy_cases
 
@@ -78,6 +79,198 @@ def simulate_corrupted(args):
         return 'HANG: no return within 300 s (normal: < 2 s)'
     except Exception:  # noqa - an exception is the fail-stop outcome
         return None
+
+
+def chain_not_a_number(args):
+    """Worker: the whole tool chain on a parameter set in which a value is NOT A NUMBER (a `nan` token in the file,
+    or float('nan') assigned to a parameter). Returns None when some call raised (fail-stop), else a description of
+    what went through."""
+    repo, route, payload, outdir, tag = args
+    os.environ['UWG_REPO'] = repo
+    core.REPO = repo
+    uwg = U.uwg_mod()
+
+    def call():
+        name = 'nn%s.epw' % tag
+        S3.remove_if_exists(os.path.join(outdir, name))
+        with core.quiet():
+            if route == 'file':
+                m = uwg.UWG.from_param_file(payload, epw_path=U.rp(U.EPW_SGP), new_epw_dir=outdir, new_epw_name=name)
+            else:
+                m = uwg.UWG.from_param_file(U.rp(U.PARAM_SGP), epw_path=U.rp(U.EPW_SGP), new_epw_dir=outdir,
+                                            new_epw_name=name)
+                setattr(m, payload, float('nan'))
+            m.nday = 1
+            m.generate()
+            m.simulate()
+            m.write_epw()
+        nanp = T.nan_parameters(m)
+        if not nanp:
+            return None                  # (the value was normalised to a number on the way: nothing to object to)
+        return ('no exception from reading, generate(), simulate() or write_epw(); %s; %d hourly records; weather file '
+                'written: %s' % (', '.join('model.%s = %r' % (a, getattr(m, a)) for a in nanp),
+                                 sum(1 for u in m.UCMData if u is not None), os.path.exists(m.new_epw_path)))
+    try:
+        return with_watchdog(call, 300)
+    except Hang:
+        return 'HANG: no return within 300 s (normal: < 2 s)'
+    except Exception:  # noqa - an exception is the fail-stop outcome
+        return None
+
+
+def not_a_number_tokens(chk, uwg, work, rows):
+    """C10 'a malformed parameter file ends with an exception ... for every single-token corruption': the token is
+    replaced by a spelling of NOT-A-NUMBER that float() reads. Comparisons with NaN are all false, so a validator
+    written as `if value < lo: raise` lets it pass where `assert lo <= value` does not; nothing downstream need
+    blow up (thresholds, heights only used in comparisons). Judged on the whole chain: some call must raise."""
+    import multiprocessing
+    rng = chk.rng
+    quick = chk.tier == 'quick'
+    toks = [(i, j) for i, r in enumerate(rows) for j, c in enumerate(r)
+            if r and not r[0].strip().startswith('#') and c.strip() != '']
+    pth = os.path.join(work, 'nn.uwg')
+    read_ok, cands, stats = 0, {}, {'refused at reading': 0, 'read, value ignored or normalised': 0, 'read as NaN': 0}
+    nread = 0
+    for (i, j) in toks:
+        for tok in T.NAN_TOKENS:
+            new = [list(r) for r in rows]
+            new[i][j] = tok
+            with open(pth, 'w', newline='') as f:
+                csv.writer(f, lineterminator='\n').writerows(new)
+            nread += 1
+
+            def call():
+                with core.quiet():
+                    return uwg.UWG.from_param_file(pth, epw_path=U.rp(U.EPW_SGP))
+            try:
+                m = with_watchdog(call, 20)
+            except Hang:
+                chk.violation('impl-violation', 'reader hangs on a not-a-number token',
+                              case={'row': new[i], 'token_index': j, 'token': tok}, observed='no return within 20 s',
+                              expected='exception')
+                continue
+            except Exception:  # noqa - refused
+                stats['refused at reading'] += 1
+                continue
+            nanp = T.nan_parameters(m)
+            if nanp:
+                stats['read as NaN'] += 1
+                cands.setdefault((i, j), []).append((tok, new, nanp))
+            else:
+                stats['read, value ignored or normalised'] += 1
+    # keyword / attribute route: float('nan') assigned to every parameter
+    attr = []
+    for name in uwg.UWG.PARAMETER_LIST:
+        with core.quiet():
+            m = uwg.UWG.from_param_file(U.rp(U.PARAM_SGP), epw_path=U.rp(U.EPW_SGP))
+        nread += 1
+        if S3.try_assign(m, name, float('nan')) == 'accepted' and T.has_nan(getattr(m, name)):
+            attr.append(name)
+            stats['read as NaN'] += 1
+    jobs, meta = [], []
+    for (i, j), lst in sorted(cands.items()):
+        for tok, new, nanp in (rng.sample(lst, min(2, len(lst))) if quick else lst):
+            pj = os.path.join(work, 'nn%d.uwg' % len(jobs))
+            with open(pj, 'w', newline='') as f:
+                csv.writer(f, lineterminator='\n').writerows(new)
+            jobs.append((core.REPO, 'file', pj, work, str(len(jobs))))
+            meta.append({'route': 'parameter file', 'row': new[i], 'token_index': j, 'token': tok,
+                         'parameters_reading_NaN_after_from_param_file': nanp})
+    for name in attr:
+        jobs.append((core.REPO, 'attribute', name, work, str(len(jobs))))
+        meta.append({'route': 'attribute', 'assignment': 'model.%s = float("nan")' % name})
+    bad = 0
+    if jobs:
+        with multiprocessing.Pool(min(16, len(jobs))) as pool:
+            outs = pool.map(chain_not_a_number, jobs, chunksize=1)
+        for case, msg in zip(meta, outs):
+            if msg:
+                bad += 1
+                if bad <= 3:
+                    chk.violation('impl-violation', 'not-a-number parameter value accepted, simulated and written',
+                                  case=case, observed=msg,
+                                  expected='an exception from from_param_file / the setter, generate(), simulate() or '
+                                           'write_epw(): "nan" is not a usable value of any parameter')
+    stats['whole chain run on accepted NaN'] = len(jobs)
+    chk.direct('not-a-number-tokens(every token x every spelling; attribute route; whole chain)', nread, nread,
+               'every non-comment token of resources/initialize_singapore.uwg replaced by each spelling of NaN that '
+               'float() reads (%s) and read; float("nan") assigned to each of the %d parameters of a model; wherever the '
+               'reader / setter accepts and a parameter then reads NaN, the whole chain generate(); simulate(); '
+               'write_epw() is run (in parallel, 300 s watchdog): some call must raise' % (
+                   ' '.join(repr(t) for t in T.NAN_TOKENS), len(uwg.UWG.PARAMETER_LIST)),
+               mismatches=bad, branches=stats)
+
+
+def accepted_schedule_sets(chk, uwg, work):
+    """C10 'every schedule set accepted by the schedule constructor ... can be simulated': sets a user writes to
+    switch heating / cooling off by a sentinel set point (far below 0 K in Celsius, far above any temperature), in
+    all or some hours / day types, zero loads, integer entries, loads above one. The run visits the sentinel."""
+    import simdriver
+    quick = chk.tier == 'quick'
+    epws = {'SGP': U.rp(U.EPW_SGP), 'TOR': simdriver.epw_path(simdriver.EPWS[2])}
+    bad, br, n = 0, {}, 0
+    for label, clim, (month, day), over in T.schedule_members(quick):
+        n += 1
+        case = {'schedule_set': label, 'constructor_arguments_changed': {
+            k: (v if not isinstance(v, list) else {'weekday': v[0], 'saturday': v[1], 'sunday': v[2]})
+            for k, v in over.items()}, 'rural_file': os.path.basename(epws[clim]), 'month': month, 'day': day}
+        try:
+            bem, sch = T.build_schedule(uwg, over)
+        except Exception as e:  # noqa: BLE001 - not accepted by the constructor: outside the clause
+            br['refused by the constructor'] = br.get('refused by the constructor', 0) + 1
+            chk.notes.append('schedule set "%s" is refused by SchDef (%s): not judged' % (label, type(e).__name__))
+            continue
+        with core.quiet():
+            m = uwg.UWG.from_param_file(U.rp(U.PARAM_SGP), epw_path=epws[clim], new_epw_dir=work,
+                                        new_epw_name='c10s.epw')
+        m.bld, m.zone, m.month, m.day, m.nday, m.dtsim = [('largeoffice', 'pst80', 1.0)], '1A', month, day, 1, 300
+        m.ref_bem_vector, m.ref_sch_vector = m._check_reference_data([bem], [sch])
+        msg = None
+        try:
+            with core.quiet():
+                m.generate()
+                m.simulate()
+                m.write_epw()
+            msg = finite_records(m) or numeric_file(m.new_epw_path, m.simTime.timeInitial, 24, 1)
+            br['simulated'] = br.get('simulated', 0) + 1
+        except Exception as e:  # noqa: BLE001
+            msg = 'accepted by SchDef(), but the run raised %s: %s' % (type(e).__name__, str(e).split('\n')[0][:140])
+        if msg:
+            bad += 1
+            if bad <= 3:
+                chk.violation('impl-violation', 'schedule set accepted by the SchDef constructor cannot be simulated',
+                              case=case, observed=msg, expected='24 complete finite records and a numeric weather file')
+    # recorded, not judged (unchanged tree): accepted sets far outside the physical domain that end in the model's
+    # own fail-stop - a ventilation rate 40x the reference makes the explicit humidity update of the zone overshoot
+    # at dtsim = 300 s; a plug load of 500 W/m2 heats the zone beyond the 100 C sanity bound on a working day
+    aux = []
+    for what, over in [('vent = 0.02 m3/s/m2 (40x the reference office)', dict(vent=0.02))] + (
+            [] if quick else [('q_elec = 500 W/m2', dict(q_elec=500.0))]):
+        try:
+            bem, sch = T.build_schedule(uwg, over)
+            with core.quiet():
+                m = uwg.UWG.from_param_file(U.rp(U.PARAM_SGP), epw_path=epws['SGP'], new_epw_dir=work,
+                                            new_epw_name='c10s.epw')
+            m.bld, m.zone, m.month, m.day, m.nday, m.dtsim = [('largeoffice', 'pst80', 1.0)], '1A', 1, 2, 1, 300
+            m.ref_bem_vector, m.ref_sch_vector = m._check_reference_data([bem], [sch])
+            with core.quiet():
+                m.generate()
+                m.simulate()
+            aux.append('%s: simulated' % what)
+        except Exception as e:  # noqa: BLE001
+            aux.append('%s: %s (%s)' % (what, type(e).__name__, str(e).split('\n')[0][:60]))
+            chk.notes.append('unchanged-tree observation (recorded, not judged): SchDef accepts %s; the 1-day Singapore run '
+                             'at dtsim = 300 s ends in %s (%s) - fail-stop, but an accepted schedule set that is not '
+                             'simulable at the default timestep' % (what, type(e).__name__, str(e).split('\n')[0][:80]))
+    aux = '; '.join(aux)
+    chk.direct('accepted-schedule-sets(set-point sentinels, zero / integer / large entries)', n, n,
+               'schedule sets built through the REAL SchDef constructor from the shipped large-office set: heating switched '
+               'off by a sentinel set point (-999, -9999, -274, -1e6 C: below 0 K) in every hour / at night / on Saturdays / '
+               'Sundays / week-ends, cooling switched off (999, 9999, 1e6 C) likewise, both (free-running), cooling set '
+               'point below 0 K, all loads zero, integer entries, load fractions above one; 1-day runs (dtsim 300) in '
+               'Singapore and Toronto started on the day type that holds the sentinel (1 Jan = Sunday, 2 Jan = weekday, '
+               '7 Jan = Saturday): every accepted set gives 24 complete finite in-bound records and a numeric file. '
+               'Recorded only: %s' % aux, mismatches=bad, branches=br)
 
 
 def finite_records(m):
@@ -567,6 +760,8 @@ def run(chk):
                'fractions are refused by the setters or simulate; '
                'the shipped blow-up parameter set at dtsim=3600 ends in an exception (%s)' % (
                    'raised' if nfatal else 'returned valid records'), mismatches=bad3)
+    not_a_number_tokens(chk, uwg, work, rows)
+    accepted_schedule_sets(chk, uwg, work)
     changed_after_generate(chk, work)
     write_after_failure(chk, work)
     chk.assumptions.append('non-finite values: `canTemp > 350 or canTemp < 200` is false for NaN, so a NaN would pass '
